@@ -19,6 +19,13 @@ Three routes are observed:
 
 An exception anywhere (construction, update, suggest, the RPC) is the allowed
 outcome REFUSED; only an out-of-domain or incomplete suggestion is a violation.
+
+Hostile configurations (what the builders accept although no algorithm can
+honour it) are part of the workload: a LOG / REVERSE_LOG / UNIFORM_DISCRETE
+scale type on a range that is not strictly positive, and a `default_value`
+outside the domain. Default / centre seeding is observed directly
+(`get_default_parameters`) and as the first suggestion(s) of an empty study
+through `DesignerPolicy`, `DefaultPolicyFactory` and the service.
 """
 import math
 import random
@@ -38,6 +45,16 @@ RULE = (
     '(designer options: pool/population sizes, grid resolution, skip points, dtype, acquisition budget) x '
     '(history of 0..110 completed / infeasible / active / duplicate / boundary trials) x (1..4 suggest-update '
     'rounds, batch 1..7, per-suggestion fate completed / infeasible / left active). '
+    'Hostile slices (second per-case generator, so the other cases do not depend on them): (a) unscalable = one '
+    'extra DOUBLE/INTEGER/DISCRETE parameter with scale LOG / REVERSE_LOG / UNIFORM_DISCRETE whose range straddles '
+    'zero, starts at zero or is nonpositive: a stratified block first (7 scaling algorithms x {LOG, REVERSE_LOG} x 3 '
+    'range positions x designer/policy/service) and ~8% of the random cases; (b) infeasible default = one parameter '
+    'whose default_value lies outside its domain (beyond a bound by 1 ulp / 1 / a span, non-finite, between two '
+    'discrete values, a misspelt category) in ~8% of the policy/service cases (mostly empty history, seeding wrapper '
+    'forced) and 30% of the default-seed cases. '
+    'Default-seed cases = get_default_parameters on a generated space (with defaults, extreme magnitudes), and for '
+    '5 of 12 of them also the first 1..3 suggestions of an empty study through DesignerPolicy(cheap designer), '
+    'DefaultPolicyFactory(DEFAULT/GP_UCB_PE/GAUSSIAN_PROCESS_BANDIT/BOCS/HARMONICA) and the service. '
     'Distinct = hash of (route, algorithm, space shape, #metrics, option class, history class, batch sizes); '
     'non-trivial = at least one suggestion was handed out and decided by the oracle.')
 ASSUMPTIONS = [
@@ -51,6 +68,12 @@ ASSUMPTIONS = [
     'policy/service routes of RANDOM_SEARCH, SHUFFLED_GRID_SEARCH, EAGLE_STRATEGY, QUASI_RANDOM_SEARCH are '
     'seeded from the clock / OS by the repository: replay of such a case re-runs it up to 25 times (GP: 3)',
     'reads of private designer attributes are used only to label the phase (seed / model) of a suggestion',
+    'hostile configurations (unscalable scale type, default outside the domain): both "refused with any exception at '
+    'any stage" and "answered inside the domain" (default ignored / clipped, scale type ignored) are accepted; a '
+    'hostile case ends at its first violation; the GP cases carry no hostile slice (cost), their seeding wrapper is '
+    'observed through the default-seed routes with count=1 (the designer behind it is never built)',
+    'mechanism ids of a dropped unscalable parameter and of an infeasible default handed out do not name the algorithm: '
+    'the shared scaling converter / seeding wrapper decides, the algorithm is named in the text',
 ]
 
 CHEAP = ['RANDOM_SEARCH', 'QUASI_RANDOM_SEARCH', 'GRID_SEARCH',
@@ -63,6 +86,10 @@ REQUIRED_COUNTERS = (
         'suggestions_checked_route:policy',
         'suggestions_checked_route:service',
         'default_seed_checked',
+        'default_seed_route:direct', 'default_seed_route:designer-policy',
+        'default_seed_route:factory-policy', 'default_seed_route:service',
+        'infeasible_default_decided', 'hostile_scale_cases',
+        'hostile_scale_block_cases_run',
         'seed_with_default_first_suggestions',
         'service_proto_param_multiset_checked',
         'phase:EAGLE_STRATEGY:mutate', 'phase:NSGA2:mutate',
@@ -1095,6 +1122,8 @@ def run_case(ctx, case, index=None):
     ctx.count(f'hostile_scale_outcome:{q["scale"]}:{sign_class(q)}:{outcome[0]}')
     if outcome[0] == 'REFUSED':
       ctx.count('hostile_scale_refused')
+  if 'infeasible-default' in (case.get('hostile') or []):
+    ctx.count(f'infeasible_default_outcome:{case["route"]}:{outcome[0]}')
   if outcome[0] == 'REFUSED' and not case['negative']:
     ctx.count(f'refused_on_documented_space:{case["name"]}:{case["route"]}')
   return checked, outcome
@@ -1207,6 +1236,7 @@ def default_seed_case(ctx, case):
     _refused(ctx, case, 'get_default_parameters' if seed_route == 'direct' else 'first-suggest', e)
     if hostile:
       ctx.count('infeasible_default_refused')
+      ctx.count('infeasible_default_decided')
     return
   if not got:
     ctx.count('default_seed_nothing_delivered')
@@ -1221,8 +1251,10 @@ def default_seed_case(ctx, case):
   for k, params in enumerate(got):
     ok = check_params(ctx, case, params, 'default-seed' if k == 0 else 'sample',
                       f'{seed_route} first suggestions of an empty study, item {k}') and ok
-  if hostile and ok:
-    ctx.count('infeasible_default_answered_in_domain')
+  if hostile:
+    ctx.count('infeasible_default_decided')
+    if ok:
+      ctx.count('infeasible_default_answered_in_domain')
   params = got[0]
   # the default, where one is configured, is what must be chosen
   for p in desc:
